@@ -192,9 +192,17 @@ def r4(ctx):
     if const_value(op_const(sp[1]["args"][1]) or {}) != ord("&"):
         yield VIOL("C10-R4", "qsm/segment-separator", "query string is not split on '&'", where=b.span_of_block(sp[0]))
     sn = b.calls(r"str>::splitn$")
-    if len(sn) != 1 or const_value(op_const(sn[0][1]["args"][1]) or {}) != 2 or const_value(op_const(sn[0][1]["args"][2]) or {}) != ord("="):
-        yield VIOL("C10-R4", "qsm/pair-separator", "segments are not split with splitn(2, '=') (first '=' separates name from value)", where=loc(b.j["span"]))
+    so = b.calls(r"str>::split_once$")
+    sep_ok = (len(sn) == 1 and not so and const_value(op_const(sn[0][1]["args"][1]) or {}) == 2 and const_value(op_const(sn[0][1]["args"][2]) or {}) == ord("=")) or \
+             (len(so) == 1 and not sn and const_value(op_const(so[0][1]["args"][1]) or {}) == ord("="))
+    if not sep_ok or b.calls(r"str>::(split|rsplit|rsplitn|rsplit_once|split_terminator)$") and len(b.calls(r"str>::(split|rsplit|rsplitn|rsplit_once|split_terminator)$")) != 1:
+        yield VIOL("C10-R4", "qsm/pair-separator", "segments are not split at the FIRST '=' (splitn(2, '=') or split_once('='))", where=loc(b.j["span"]))
         return
+    pair_call = (sn or so)[0]
+    # the pair split is applied to the whole segment
+    ps_ = b.slice_op(pair_call[1]["args"][0])
+    if [c_ for c_ in ps_.callee_names() if not re.search(r"Iterator::next$|IntoIterator::into_iter$|str>::split$", c_)]:
+        yield VIOL("C10-R4", "qsm/pair-subject", "the name/value split is not applied to the '&'-separated segment as it is", where=b.span_of_block(pair_call[0]))
     nx = [x for x in b.calls(r"Iterator::next$") if "Split<" in x[1].get("resolved_full", "")]
     n = one(nx, "segment iteration")
     st = b.term(n[1]["target"])
@@ -258,31 +266,48 @@ def r4(ctx):
         return
 
     def idxs(sl):
-        return sorted({const_value(op_const(t_["args"][1]) or {}) for _, t_ in sl.find_calls(r"ops::Index::index$")})
+        got = {const_value(op_const(t_["args"][1]) or {}) for _, t_ in sl.find_calls(r"ops::Index::index$")}
+        if so:
+            # split_once form: `(x as Some).0.0` is the name, `.0.1` the value
+            for l_, fs in sl.fieldreads:
+                if len(fs) >= 2 and fs[0] == "0" and fs[1] in ("0", "1") and b.slice([l_]).has_call(r"str>::split_once$"):
+                    got.add(int(fs[1]))
+        return sorted(got)
 
-    kd, vd = None, None
+    role = {}
     for nb, nt in norm:
         i = idxs(b.slice_op(nt["args"][0]))
         if i == [0]:
-            kd = nt["dest"]["local"]
+            role[nb] = 0
         elif i == [1]:
-            vd = nt["dest"]["local"]
-    if kd is None or vd is None:
-        yield VIOL("C10-R4", "qsm/name-value-parts", "name/value are not normalize(parts[0]) / normalize(parts[1] or \"\")", where=loc(b.j["span"]))
+            role[nb] = 1
+        elif i == [] and so:
+            # the `None => (component, "")` arm feeds the same locals: resolved by the arm that has an index
+            role[nb] = None
+    if sorted(v for v in role.values() if v is not None) != [0, 1]:
+        yield VIOL("C10-R4", "qsm/name-value-parts", "name/value are not normalize(<text before the first '='>) / normalize(<text after it, or \"\">)", where=loc(b.j["span"]))
         return
+
+    def roles_of(o):
+        sl_ = b.slice_op(o)
+        return {role[nb] for nb, _ in norm if any(cb == nb for cb, _ in sl_.calls)}
+
     okkv = True
     for ib in inserts:
         t_ins = b.term(ib)
-        if not (kd_in(b, t_ins["args"][1], norm, 0) and kd_in(b, t_ins["args"][2], norm, 1)):
+        if roles_of(t_ins["args"][1]) != {0} or roles_of(t_ins["args"][2]) != {1}:
+            okkv = False
+    for eb_, et_ in b.calls(r"HashMap::<K, V, S, A>::entry$"):
+        if roles_of(et_["args"][1]) != {0}:
             okkv = False
     for pb in pushes:
         t_p = b.term(pb)
-        if not kd_in(b, t_p["args"][1], norm, 1):
+        if roles_of(t_p["args"][1]) != {1}:
             okkv = False
     if not okkv:
         yield VIOL("C10-R4", "qsm/name-value-roles", "the stored key/value are not (normalised name, normalised value)", where=loc(b.j["span"]))
     else:
-        yield PASS("C10-R4", "qsm/name-value-roles", "map key <= normalize(parts[0]); stored value <= normalize(parts[1] | \"\")", [])
+        yield PASS("C10-R4", "qsm/name-value-roles", "map key <= normalize(name part); stored value <= normalize(value part | \"\")", [])
 
 
 def s_is_payload(d, opt_local):
